@@ -215,13 +215,37 @@ WithinOneFrame(tr, back, sh) ==
 \* tokens that start in the same frame come back with equal start times: their order in a ctm is then free
 DistinctStartFrames(tr, sh) == \A i, j \in 1..Len(tr) : i # j => StartFrame(tr[i].s, sh) # StartFrame(tr[j].s, sh)
 CtmKinds == {"default", "chan", "wc2utt", "utt2wc"}
+\* A ctm FILE is a sequence of LINES; a line names its utterance (through waveform and channel, or through the map
+\* of --wc2utt / --utt2wc: two channels of one recording may be two utterances) and holds one segment.  The format
+\* puts no constraint on the order of the lines: the MEANING of a file is  utterance -> its segments sorted by
+\* start,  whatever that order (CtmOrderFree).  Line orders of the universe: "grouped" (utterance after utterance,
+\* as the writer command lists them), "interleaved" (first segments of all utterances, then the second ones, ...),
+\* "reversed" (the grouped file backwards) and "bytime" (all lines by start time: a two-channel recording in time
+\* order).  A case holds the FILE: orders that give the same sequence of lines are one case.
+RECURSIVE CtmFlat(_, _)
+CtmFlat(d, i) == IF i > Len(d) THEN <<>> ELSE [k \in 1..Len(d[i]) |-> [u |-> i, k |-> k, x |-> d[i][k]]] \o CtmFlat(d, i + 1)
+CtmLineOrders == {"grouped", "interleaved", "reversed", "bytime"}
+CtmLineKey(l, o) ==
+  CASE o = "interleaved" -> <<l.k, l.u>>
+    [] o = "reversed" -> <<0 - l.u, 0 - l.k>>
+    [] o = "bytime" -> <<l.x.s, l.u, l.k>>
+    [] OTHER -> <<l.u, l.k>>
+CtmFile(d, o) == LET g == CtmFlat(d, 1) IN Values(StableSort([j \in 1..Len(g) |-> <<CtmLineKey(g[j], o), g[j]>>]))
+\* the segments of utterance i in the order of their lines; the meaning of the file for utterance i
+CtmSegs(file, i) == LET mine == SelectSeq(file, LAMBDA l : l.u = i) IN [j \in 1..Len(mine) |-> mine[j].x]
+CtmMeaning(file, i) == SortByStart(CtmSegs(file, i))
+\* (segments of one utterance that start at the same time keep the order of their lines: no meaning beyond that)
+DistinctStarts(tr) == \A i, j \in 1..Len(tr) : i # j => tr[i].s # tr[j].s
+\* some utterance's lines are not next to each other
+CtmScattered(file) == \E a, b, e \in 1..Len(file) : a < b /\ b < e /\ file[a].u = file[e].u /\ file[b].u # file[a].u
+CtmPermMax == 4       \* files of up to that many lines are checked under EVERY permutation of their lines
 CtmCases ==
   IF "ctm" \notin Fams THEN {}
-  ELSE UNION {{[nm |-> nm, data |-> d, shift |-> sh, kind |-> kd] :
+  ELSE UNION {{[nm |-> nm, data |-> d, shift |-> sh, kind |-> kd, file |-> CtmFile(d, o)] :
                  d \in UNION {[1..m -> CtmSet] : m \in 1..CtmUtts} \cup [1..BigUtts -> CtmTiny],
-                 sh \in CtmShifts, kd \in {k \in CtmKinds : nm = NonDefaultNaming \/ k = "default"}} : nm \in Namings}
-       \cup {[nm |-> nm, data |-> d, shift |-> sh, kind |-> "default"] :
-               nm \in GlobNamings, d \in [1..BigUtts -> CtmTiny], sh \in CtmShifts}
+                 sh \in CtmShifts, kd \in {k \in CtmKinds : nm = NonDefaultNaming \/ k = "default"}, o \in CtmLineOrders} : nm \in Namings}
+       \cup {[nm |-> nm, data |-> d, shift |-> sh, kind |-> "default", file |-> CtmFile(d, o)] :
+               nm \in GlobNamings, d \in [1..BigUtts -> CtmTiny], sh \in CtmShifts, o \in {"grouped", "interleaved"}}
 \* TextGrid tiers: an interval tier whose entries all have positive length (method 1 of the writer
 \* command) or a point tier (method 2)
 TgKind(tr) == IF \A k \in 1..Len(tr) : tr[k].d = 0 THEN "point" ELSE "interval"
@@ -257,16 +281,28 @@ ErMissPatterns(m) ==
   {ErNoMiss, [ref |-> {1}, hyp |-> {m}]}
   \cup {[ref |-> {k}, hyp |-> {}] : k \in 1..m} \cup {[ref |-> {}, hyp |-> {k}] : k \in 1..m}
 ErOptsMiss == {o \in ErOptsAll : o.rep = <<>> /\ o.ign = {} /\ ~o.dist /\ o.costs[1] = o.costs[2] /\ o.costs[2] = o.costs[3]}
-ErCases ==     \* every pair alone; small corpora x every naming; tiny corpora x every option; incomplete directories
+\* The integer ids under which the abstract tokens 1, 2 are stored in the two directories (and written into the
+\* --replace / --ignore lists; with --id2token the lists and the comparison are in terms of the tokens' spellings).
+\* The figures do not depend on them (ErIdFree): in particular an id may be negative.
+ErIdTables == {<<4, 7>>, <<-1, -2>>, <<-3, -1>>, <<-2, -3>>}
+ErIdsDefault == <<4, 7>>
+ErStored(s, t) == [k \in 1..Len(s) |-> t[s[k]]]
+ErOptsUniform == {o \in ErOptsAll : o.costs[1] = o.costs[2] /\ o.costs[2] = o.costs[3]}
+ErCasesIds ==    \* tiny corpora x every option (equal costs) x every id table x with / without --id2token
   IF "er" \notin Fams THEN {}
-  ELSE {[nm |-> NonDefaultNaming, data |-> <<d>>, opt |-> o, miss |-> ErNoMiss, warn |-> FALSE] : d \in ErPairs, o \in ErOptsFew}
-       \cup {[nm |-> nm, data |-> d, opt |-> o, miss |-> ErNoMiss, warn |-> FALSE] :
+  ELSE {[nm |-> NonDefaultNaming, data |-> d, opt |-> o, miss |-> ErNoMiss, warn |-> FALSE, ids |-> t, i2t |-> b] :
+          d \in [1..2 -> ErPairsTiny], o \in ErOptsUniform, t \in ErIdTables, b \in BOOLEAN}
+ErCasesBase ==     \* every pair alone; small corpora x every naming; tiny corpora x every option; incomplete directories
+  IF "er" \notin Fams THEN {}
+  ELSE {[nm |-> NonDefaultNaming, data |-> <<d>>, opt |-> o, miss |-> ErNoMiss, warn |-> FALSE, ids |-> ErIdsDefault, i2t |-> FALSE] : d \in ErPairs, o \in ErOptsFew}
+       \cup {[nm |-> nm, data |-> d, opt |-> o, miss |-> ErNoMiss, warn |-> FALSE, ids |-> ErIdsDefault, i2t |-> FALSE] :
                nm \in Namings, d \in [1..2 -> ErPairsSmall], o \in ErOptsFew}
-       \cup {[nm |-> NonDefaultNaming, data |-> d, opt |-> o, miss |-> ErNoMiss, warn |-> FALSE] :
+       \cup {[nm |-> NonDefaultNaming, data |-> d, opt |-> o, miss |-> ErNoMiss, warn |-> FALSE, ids |-> ErIdsDefault, i2t |-> FALSE] :
                d \in [1..2 -> ErPairsTiny], o \in ErOptsAll}
-       \cup {[nm |-> nm, data |-> d, opt |-> o, miss |-> ms, warn |-> TRUE] :
+       \cup {[nm |-> nm, data |-> d, opt |-> o, miss |-> ms, warn |-> TRUE, ids |-> ErIdsDefault, i2t |-> FALSE] :
                nm \in IdNamings, d \in {x \in [1..ErMissUtts -> ErPairsTiny] : \A i, j \in 1..ErMissUtts : i # j => x[i] # x[j]},
                o \in ErOptsMiss, ms \in ErMissPatterns(ErMissUtts)}
+ErCases == ErCasesBase \cup ErCasesIds
 ErRef(cs0, i) == ApplyRI(cs0.data[i][1], cs0.opt.rep, cs0.opt.ign)
 ErHyp(cs0, i) == ApplyRI(cs0.data[i][2], cs0.opt.rep, cs0.opt.ign)
 ErRange(cs0, i) == ED!EditRange(ErRef(cs0, i), ErHyp(cs0, i), cs0.opt.costs)     \* <<fewest, most>> edits
@@ -436,7 +472,7 @@ Work(f, cs0) ==
     [] f = "trn" -> [i \in 1..Len(cs0.data) |->
                        Item({<<"dir", Name(cs0.nm, i), Content(TrnToks(cs0.data[i]), cs0.sizing)>>}, Zero3)]
     [] f = "ctm" -> [i \in 1..Len(cs0.data) |->
-                       Item({<<"dir", Name(cs0.nm, i), Rows(SortByStart(cs0.data[i]), cs0.shift)>>}, Zero3)]
+                       Item({<<"dir", Name(cs0.nm, i), Rows(CtmMeaning(cs0.file, i), cs0.shift)>>}, Zero3)]
     [] f = "tg" -> [i \in 1..Len(cs0.data) |-> Item({<<"dir", Name(cs0.nm, i), Rows(cs0.data[i], cs0.shift)>>}, Zero3)]
     [] f = "sub" -> LET sel == SelectSeq([i \in 1..Len(cs0.data) |-> i], LAMBDA i : i \in SubChosen(cs0))
                     IN [j \in 1..Len(sel) |->
@@ -551,6 +587,16 @@ TrnInverse == (fam = "trn" /\ First) =>
 CtmInverse == (fam = "ctm" /\ First) =>
   \A i \in 1..Len(cs.data) :
      LET tr == SortByStart(cs.data[i]) IN WithinOneFrame(tr, BackTimes(Rows(tr, cs.shift), cs.shift), cs.shift)
+\* the meaning of a ctm file does not depend on the order of its lines: it is the declarative  utterance -> segments
+\* sorted by start  of the corpus the lines were taken from -- for the file of the case and, for small files, for
+\* every permutation of its lines
+CtmOrderFree == (fam = "ctm" /\ First) =>
+  LET nl == Len(cs.file)
+      perms == IF nl > CtmPermMax THEN {} ELSE {p \in [1..nl -> 1..nl] : \A a, b \in 1..nl : a # b => p[a] # p[b]}
+  IN /\ nl = SumSeq([i \in 1..Len(cs.data) |-> Len(cs.data[i])])
+     /\ \A i \in 1..Len(cs.data) : DistinctStarts(cs.data[i]) =>
+          /\ CtmMeaning(cs.file, i) = SortByStart(cs.data[i])
+          /\ \A p \in perms : CtmMeaning([j \in 1..nl |-> cs.file[p[j]]], i) = SortByStart(cs.data[i])
 TgInverse == (fam = "tg" /\ First) =>
   \A i \in 1..Len(cs.data) :
      LET tr == cs.data[i]
@@ -567,6 +613,16 @@ ErBatchFree == (fam = "er" /\ First) =>
   \E K \in {ErKept(cs)}, F \in {ErFigures(cs)} :
      /\ ErBatched(cs.opt.bs, K, F, 1, Zero3) = ErTotals(K, F)
      /\ ErBatched(cs.opt.bs, K, F, 1, Zero3) = ErDeclTotals(cs, F)
+\* the figures are those of the stored integer ids, whatever ids (negative ones too) stand for the tokens
+ErIdFree == (fam = "er" /\ First) =>
+  /\ cs.ids[1] # cs.ids[2]
+  /\ \A t \in ErIdTables \cup {cs.ids} : \A i \in 1..Len(cs.data) :
+       /\ ED!EditRange(ErStored(ErRef(cs, i), t), ErStored(ErHyp(cs, i), t), cs.opt.costs) = ErRange(cs, i)
+       \* (replacing and ignoring commute with the renaming)
+       /\ ErStored(ErRef(cs, i), t) =
+            LET st == ErStored(cs.data[i][1], t)
+                r == [k \in 1..Len(st) |-> IF cs.opt.rep # <<>> /\ st[k] = t[cs.opt.rep[1]] THEN t[cs.opt.rep[2]] ELSE st[k]]
+            IN SelectSeq(r, LAMBDA x : x \notin {t[y] : y \in cs.opt.ign})
 ErUniformExact == (fam = "er" /\ First /\ cs.opt.costs[1] = cs.opt.costs[2] /\ cs.opt.costs[2] = cs.opt.costs[3]) =>
   \E F \in {ErFigures(cs)} : \A i \in 1..Len(cs.data) : F[i][1] = F[i][2]
 \* subsets: the right number of distinct utterances, all from the source
@@ -628,7 +684,7 @@ Export ==
                            toks |-> [i \in 1..Len(cs.data) |-> TrnToks(cs.data[i])],
                            content |-> [i \in 1..Len(cs.data) |-> Content(TrnToks(cs.data[i]), cs.sizing)]])
       [] fam = "ctm" ->
-           Emit(Common @@ [shift |-> cs.shift, kind |-> cs.kind,
+           Emit(Common @@ [shift |-> cs.shift, kind |-> cs.kind, file |-> cs.file, scattered |-> CtmScattered(cs.file),
                            sorted |-> [i \in 1..Len(cs.data) |-> SortByStart(cs.data[i])],
                            ordered |-> [i \in 1..Len(cs.data) |-> DistinctStartFrames(cs.data[i], cs.shift)],
                            rows |-> [i \in 1..Len(cs.data) |-> Rows(SortByStart(cs.data[i]), cs.shift)],
@@ -642,6 +698,7 @@ Export ==
       [] fam = "er" ->
            \E K \in {ErKept(cs)}, F \in {ErFigures(cs)} :
              Emit(Common @@ [costs |-> cs.opt.costs, bs |-> cs.opt.bs, rep |-> cs.opt.rep, ign |-> SetToSeq(cs.opt.ign),
+                             ids |-> cs.ids, i2t |-> cs.i2t,
                              dist |-> cs.opt.dist, perutt |-> cs.opt.perutt, defined |-> ErDefined(cs, F),
                              warn |-> cs.warn, inref |-> [i \in 1..Len(cs.data) |-> i \notin cs.miss.ref],
                              inhyp |-> [i \in 1..Len(cs.data) |-> i \notin cs.miss.hyp], kept |-> K,
